@@ -44,8 +44,9 @@ theorem run_end_shape (e : Env) (b : Option Nat) (w : Bytes) : EndShape (run e b
 /-- the four outcomes of a whole connection -/
 theorem run_outcomes (e : Env) (b : Option Nat) (w : Bytes) :
     (run e b w).2.2 = .eof ∨ (run e b w).2.2 = .quit ∨ (run e b w).2.2 = .sendError ∨ (run e b w).2.2 = .dataCut := by
-  have := loop_total e (w.length + 2) (start b) w [.reply [220]] (by omega)
-  rw [← run_eq] at this
+  have := loop_total e (w.length + 2) (start e b) w [.reply [220]] (by omega)
+  have h2 := loop_not_tlsFail e (w.length + 2) (start e b) w [.reply [220]]
+  rw [← run_eq] at this h2
   cases h : (run e b w).2.2 <;> simp_all
 
 end Ibx.Lemmas.SmtpEnd
